@@ -5,7 +5,7 @@ CFG = dict(
     run_targets=["C16/Run.vo"], proof_targets=["C16/Props.vo"], props="C16/Props.v",
     gen_obligations=[
         "Inst.gen_layouts_std: the field order regenerated from BlockHeader::hash and BlockHeader::signing_bytes is the layout the pre-image lemmas are proved for",
-        "Inst.gen_flags_ok: the regenerated flags say Chain::append rejects timestamp regressions, Chain::verify_chain checks the genesis tx_root, the signature demand starts above height 1 and TensorChain::commit holds its lock from pre-image to append",
+        "Inst.gen_flags_ok: the regenerated flags say Chain::verify_chain checks the genesis tx_root, the signature demand starts above height 1 and TensorChain::commit holds its lock from pre-image to append",
     ],
     crate="nvh_c16",
     header=H + "From NV.C16 Require Import Model Run.\nOpen Scope N_scope.",
@@ -17,7 +17,7 @@ CFG = dict(
         "layout": ("layout_case", "check_layout"),
     },
     known_classes={0: "block-signatures-field", 1: "genesis-unlinked", 2: "merkle-duplicate-tail",
-                   3: "rollback-stale-checkpoint", 4: "first-block-unsigned"},
+                   3: "rollback-stale-checkpoint", 4: "first-block-unsigned", 5: "state-root-covers-chain-records", 6: "append-timestamp-regression"},
     shard=60,
     rule="seeded begin/put/delete/commit/rollback/append_block histories over 1-4 workspaces on the real TensorChain (validator keys registered); every single-field mutation, removal, swap, copy and forgery of every stored block of each chain; 2-4 concurrent commits through the commit hook; two replicas replaying the same blocks",
     trusted_base=COMMON_TB + [
